@@ -273,9 +273,14 @@ func randomDecide(r *vh.Rand) func(ready []string, k int) int {
 // ---------------------------------------------------------------------------
 // generators
 
+// b / bc and a/x / a/x1: names that are textual prefixes of each other
 var leafUniverse = [][]string{
-	{"a", "x"}, {"a", "y"}, {"b"}, {"c", "z"},
+	{"a", "x"}, {"a", "y"}, {"b"}, {"c", "z"}, {"bc"}, {"a", "x1"},
 }
+
+// single-leaf paths, pairwise selecting different leaves although b is a textual prefix of bc
+// and a/x of a/x1: any list of them, in any order, is fine for the forced-schedule families
+var prefixNamed = [][]string{{"b"}, {"bc"}, {"a", "x"}, {"a", "x1"}, {"c", "z"}}
 
 func genPath(r *vh.Rand, t string) []string {
 	l := leafUniverse[r.Intn(len(leafUniverse))]
@@ -326,6 +331,24 @@ func genSub(r *vh.Rand, overlapping bool) SubCfg {
 	var s SubCfg
 	s.UO = r.Chance(1, 5)
 	switch {
+	case r.Chance(1, 5):
+		// several entries whose names are textual prefixes of each other, in a seeded order;
+		// free-running cases also repeat an entry or add the container of some
+		idx := []int{0, 1, 2, 3, 4}
+		for i := len(idx) - 1; i > 0; i-- {
+			j := r.Intn(i + 1)
+			idx[i], idx[j] = idx[j], idx[i]
+		}
+		n := 2 + r.Intn(3)
+		for _, k := range idx[:n] {
+			s.Qs = append(s.Qs, append([]string{t}, prefixNamed[k]...))
+		}
+		if overlapping && r.Chance(1, 2) {
+			extra := [][]string{{"a"}, prefixNamed[idx[0]], {"a", "*"}, {}}
+			at := r.Intn(len(s.Qs) + 1)
+			q := append([]string{t}, extra[r.Intn(len(extra))]...)
+			s.Qs = append(s.Qs[:at], append([][]string{q}, s.Qs[at:]...)...)
+		}
 	case r.Chance(1, 30):
 		// a query longer than a leaf it is compatible with (feed and walk disagree)
 		s.Qs = [][]string{{t, "b", "q"}}
@@ -416,6 +439,20 @@ func genCase(r *vh.Rand, mode string, shared bool, maxOps int) *Case {
 		// one walk is inserted twice, and a sender woken by the first insertion races the second
 		// (there is no schedule point inside the walk); mode A covers overlapping paths
 		cs.Subs = append(cs.Subs, genSub(r, mode == "A"))
+	}
+	if mode == "A" {
+		// writes after the sync under EVERY entry of every subscription that names a leaf
+		k := 0
+		for _, sc := range cs.Subs {
+			for _, q := range sc.Qs {
+				for _, l := range leafUniverse {
+					if pstr(q[1:]) == pstr(l) {
+						cs.Ops = append(cs.Ops, Op{W: -2, K: "upd", P: append([]string(nil), q...), V: int64(10 + k), TS: int64(40 + k)})
+						k++
+					}
+				}
+			}
+		}
 	}
 	return cs
 }
